@@ -757,6 +757,55 @@ def check_c21(tier, seed, work):
     return cov, violations
 
 
+GD_CFG = """SPECIFICATION GDSpec
+CONSTANTS
+  Vals = {"v1", "v2"}
+  KeyAtoms = {"K1", "K2"}
+  MKeyAtoms = {%(mkeys)s}
+  Enabled <- %(enabled)s
+  MaxOps = 2
+  MaxDocLeaves = 2
+INVARIANT RewritesPreserveIntent
+CONSTRAINT GDEmit
+CHECK_DEADLOCK FALSE
+"""
+
+
+def check_gnmidiff(prop, tier, seed, work):
+    """C22 / C23: GnmiDiff.tla -- the intent of every conflict-free SetRequest of up to two operations,
+    its intent-preserving rewrites (checked by TLC) and the free leaves under deleted subtrees;
+    replayed on gnmidiff with the generated schema and without a schema (OpenConfig-style variants)."""
+    cfgs = ["cs", "cw"] if tier == "quick" else ["cs", "cw", "co"]
+    h, bindir = vf.prepare(work, cfgs)
+    slices = [("G", "EnabledG", "")] if tier == "quick" else [("G", "EnabledG", ""), ("A", "EnabledA", ""), ("B", "EnabledB", "")]
+    states = trans = 0
+    results = []
+    for name, enabled, mk in slices:
+        mc = vf.run_tlc(work, "MC_GnmiDiff", GD_CFG % dict(enabled=enabled, mkeys=mk), tag="gd" + name, timeout=2400)
+        states += mc["distinct"]; trans += mc["states"]
+        args = ["-in", mc["out"], "-prop", prop, "-seed", str(seed), "-pkgs", ",".join(cfgs), "-limit", "5" if tier == "quick" else "2"]
+        r = run_replay(bindir, h, "gnmidiff", args, work, name)
+        if r["evaluated"] == 0:
+            raise Infra("gnmidiff replay of slice %s evaluated nothing" % name)
+        results.append(r)
+    tot = merge_results(results)
+    c = tot["counters"]
+    if prop == "C22" and not c.get("rewrites_compared"):
+        raise Infra("vacuous: no rewrite was compared")
+    if prop == "C23" and not (c.get("removed_one") and c.get("changed_one") and c.get("added_under_deleted")):
+        raise Infra("vacuous: an edit class was never exercised: %s" % c)
+    cov = dict(states=states, transitions=trans, traces_validated_against_impl=tot["evaluated"], exhaustive=False,
+               samples=[dict(note="see counters")], counters=c, configurations=cfgs,
+               explanation="every conflict-free SetRequest of one or two operations (delete / replace / update; leaf, leaf-list and JSON payloads at "
+               "containers, list entries and the root) over the slice(s); TLC checks that the rewrites SplitJSON, Reorder, LeafReplaceToUpdate and "
+               "DuplicateUpdate preserve Intent(req); " + (
+                   "DiffSetRequest(a, a), DiffSetRequest(a, rewrite(a)) under three prefix splits, and swap symmetry against another request, with the "
+                   "generated schema and with nil schema (values then given in their JSON form)" if prop == "C22" else
+                   "DiffSetRequestToNotifications against notifications carrying exactly the intent's leaves, then with one leaf removed, one "
+                   "value changed, and one free leaf added under a deleted / replaced subtree"))
+    return cov, tot["violations"]
+
+
 PIPELINES = {
     "C10": lambda tier, seed, work: check_tree("C10", tier, seed, work, "set,setll", ["SetGetFrame"]),
     "C12": lambda tier, seed, work: check_tree("C12", tier, seed, work, "delete", ["DeleteExact"]),
@@ -769,6 +818,8 @@ PIPELINES = {
     "C04": check_c04,
     "C11": check_c11,
     "C21": check_c21,
+    "C22": lambda tier, seed, work: check_gnmidiff("C22", tier, seed, work),
+    "C23": lambda tier, seed, work: check_gnmidiff("C23", tier, seed, work),
     "C32": check_c32,
     "C13": lambda tier, seed, work: check_gnmiset("C13", tier, seed, work, "setreq", ["SetSemantics"]),
     "C06": check_restrict,
